@@ -20,6 +20,7 @@
 
 """Codegen."""
 
+import copy
 import importlib
 import logging
 import os
@@ -167,9 +168,16 @@ class GeneratorManager:
     ) -> Result[Nil, str]:
         """Generate code."""
         generator = self._get_generator(generator_name).Generator()
-        generator.register_checks(self.verifier)
 
-        self.verifier.verify(fcp).attempt()
+        # this generator's checks apply to this call only: registered on the
+        # manager's own verifier they would also judge every later generation
+        verifier = copy.copy(self.verifier)
+        verifier.checks = {
+            category: list(checks) for category, checks in self.verifier.checks.items()
+        }
+        generator.register_checks(verifier)
+
+        verifier.verify(fcp).attempt()
 
         templates = self._get_templates(template_dir)
         skels = self._get_skels(skel_dir)
